@@ -144,6 +144,16 @@ STRENGTHENED.update({
     "c18-15": "C18 missed it at first; global variables are now sometimes given twice (WithVariables with a repeated name; --arg twice plus a named argument called ARGS)",
     "c20-14": "C20 missed it at first; loop turns that catch an error (of a builtin, of error/1, of an index, of a failed conversion) in until / while / recurse / reduce / foreach / tail recursion",
 })
+STRENGTHENED.update({
+    # round 7
+    "c03-16": "filed under C03 by its author; two results of one array addition sharing a backing array is aliasing, the subject of C05, which catches it",
+    "c05-15": "filed under C05 by its author; a write through one path changing what an update function has already handed out is the non-interference clause of C02. C02 missed it at first as well: a family re-embedding through negative indices (8 element paths counted from the end x 11 paths below them x 6 embedding bodies x 4 orders) was added and catches it",
+    "c06-15": "C06 missed it at first (C05 caught it); builtins are now also applied to the arrays of the shared input themselves (join, the sorting and grouping family, the formats, ~60 array builtins over every sub-array), not only to arrays the program builds",
+    "c15-16": "filed under C15 by its author; descriptors kept per consumed file are the subject of c20.command-files (and the many-files kind of C16), which catch it",
+    "c17-15": "C17 missed it at first; DEL (a legal zero-width ASCII byte inside JSON strings and jq string literals) was added to the ASCII alphabet of the generators",
+    "c18-17": "C18 missed it at first; every variable reference of the generated programs is now wrapped in a probe that tells an array from a nil slice printing like one (deletions)",
+    "c19-15": "C19 and C05 missed it at first; order-sensitive folds (floating-point sums that cancel) over the members of objects, 30 programs x 3-4 objects x 12 key sets, 4 runs each in C05 and 16 runs each in c19.history",
+})
 NOT_A_VIOLATION = {
     "c15-6": "after a malformed document in a file that is not the last one, the unchanged command goes on with the next file, the changed one stops. C16 says of a malformed document 'every complete value before it, then one error, then end of input' and C15 speaks of runtime errors of the query only; neither property decides whether the files named later are still read, so the checks accept both (DESIGN 9.2, 'not defects')",
 }
